@@ -254,7 +254,11 @@ func (d *Decoder) readMap(dest reflect.Value) error {
 		SetValue(dest, r)
 		return nil
 	case _mapTypedTag:
-		d.readString(_tagRead)
+		// the type of a typed map is a `type` production: a string that enters the stream's type table
+		// (later type back-references count it), or an int that refers back to an earlier entry
+		if _, err := d.readType(); err != nil {
+			return newCodecError("readMap", err)
+		}
 	case _mapUntypedTag:
 		//do nothing
 	default:
